@@ -208,7 +208,7 @@ def run(ck):
     oerr = _oracle_selfcheck(ck)
     if oerr is None:
         return
-    nbase = ck.n(36, 2000)
+    nbase = ck.n(36, 4000)
     per = ck.n(3, 25)
     chunks = [(ck.seed, cid, per, oerr) for cid in range(math.ceil(nbase / per))]
     for item, st, val in jobs.pmap(_chunk, chunks, timeout=ck.n(900, 7200)):
